@@ -8,12 +8,13 @@ import numpy as np
 import bct
 from bctmc import smallscope as ss
 from bctmc import named
+from bctmc import trees
 from bctmc.runner import guarded
 from bctmc.tally import Tally
 
 PROPERTY = 'C16'
 RULE = ('the structured 7-10 node family of bctmc/named.py and all labelled undirected graphs with n<=6 (quick) / n<=7 (thorough) nodes, each in three '
-        'variants (binary, weights {1,2}, non-zero diagonal), plus every asymmetric 0/1 matrix on '
+        'variants (binary, weights {1,2}, non-zero diagonal), every free tree on 8-10 nodes (23 + 47 + 106 shapes) under a fixed family of node orders (BFS / reverse BFS / DFS pre- and post-order from every root, leaf peeling, by degree; 9 765 labelled trees) and, for 9 and 10 nodes, under EVERY numbering that puts all leaves before all internal nodes (thorough: also all internal nodes first), ALL labelled trees on 7 and 8 nodes and the forests obtained by cutting one edge (thorough: ALL 4 782 969 + 100 000 000 labelled trees on 9 and 10 nodes), plus every asymmetric 0/1 matrix on '
         '3 nodes (with and without diagonal) and every 3-4 node symmetric graph perturbed in one cell by 1e-9 / 1e-12; a case is non-trivial when some component has >=3 '
         'nodes (several partial sets must be merged) or the input must be rejected')
 ASSUMPTIONS = ['float64 inputs', 'reference: BFS over the symmetric support (bctmc.smallscope.bfs_components)']
@@ -28,6 +29,22 @@ def plan(ctx):
             units.append(('und', n, a, b))
     for (a, b) in ss.ranges(len(named.family('bin_und')), 8):
         units.append(('named', 0, a, b))
+    # trees beyond the all-graphs scope: every free tree on 8-10 nodes under a fixed family of node orders, and ALL
+    # labelled trees (Pruefer enumeration) on 7-8 nodes (thorough: 9 and 10 nodes, 4 782 969 + 100 000 000 trees)
+    for n in (8, 9, 10):
+        for (a, b) in ss.ranges(len(trees.shape_family(n)), 16):
+            units.append(('shapes', n, a, b))
+    # ... and under EVERY numbering in which all leaves come before all internal nodes (index-order scans then meet each
+    # hub after its neighbourhood was seen in pieces); thorough: also every numbering with the internal nodes first
+    for n in (9, 10):
+        for si in range(len(trees.shapes(n))):
+            units.append(('leaves_first', n, si, si + 1))
+            if ctx.thorough:
+                units.append(('leaves_last', n, si, si + 1))
+    for n in ((7, 8, 9, 10) if ctx.thorough else (7, 8)):
+        tot = trees.tree_count(n)
+        for (a, b) in ss.ranges(tot, max(16, tot // 250000)):
+            units.append(('trees', n, a, b))
     for (a, b) in ss.ranges(ss.dir_count(3, (0, 1)), 4):
         units.append(('asym', 3, a, b))
     for n in (3, 4):
@@ -89,11 +106,114 @@ def check_und(t, A, name, case):
                 t.viol(fname, 'agrees_with_components', case, observed=fin, expected=same_ref)
 
 
-def work(unit):
+def check_tree(t, A, case, with_count):
+    """a tree is one component: the answer is known without an oracle run."""
+    n = len(A)
+    st, out = guarded(bct.get_components, A.copy())
+    if st != 'ok':
+        t.viol('get_components', 'raises', case(), observed=out)
+        return
+    comps, sizes = np.asarray(out[0]), np.asarray(out[1])
+    if comps.shape != (n,) or np.any(comps != 1):
+        t.viol('get_components', 'grouping', case(), observed=comps, expected=[1] * n)
+    if sizes.tolist() != [n]:
+        t.viol('get_components', 'sizes', case(), observed=sizes, expected=[n])
+    if with_count:
+        st, k = guarded(bct.number_of_components, A.copy())
+        if st != 'ok' or k != 1:
+            t.viol('number_of_components', 'count', case(), observed=k, expected=1)
+
+
+def work_trees(unit):
     kind, n, a, b = unit
     t = Tally(PROPERTY)
     for idx in range(a, b):
-        if kind == 'named':
+        edges = trees.labelled_tree_edges(n, idx)
+        A = trees.matrix(n, edges)
+        t.c['evaluations'] += 1
+        t.c['nontrivial'] += 1
+        t.c['labelled_trees_%d' % n] += 1
+        check_tree(t, A, lambda: {'family': 'und', 'n': n, 'index': idx, 'variant': 'binary', 'graph': 'labelled tree', 'A': A},
+                   with_count=n <= 8)
+        if n <= 8:
+            # the forests obtained by cutting one edge (two components), full check against the BFS oracle
+            for k in range(len(edges)):
+                F = trees.matrix(n, edges[:k] + edges[k + 1:])
+                t.c['evaluations'] += 1
+                t.c['nontrivial'] += 1
+                light_forest(t, F, {'family': 'und', 'n': n, 'index': idx, 'variant': 'binary', 'graph': 'tree minus edge %d' % k, 'A': F})
+    if a == 0:
+        t.sample({'family': 'labelled trees', 'n': n, 'count': trees.tree_count(n)})
+    return t
+
+
+def work_leaf_orders(unit):
+    import itertools
+    kind, n, a, b = unit
+    t = Tally(PROPERTY)
+    for si in range(a, b):
+        adj = trees.shapes(n)[si]
+        edges = [(v, w) for v in range(n) for w in adj[v] if v < w]
+        leaves = [v for v in range(n) if len(adj[v]) == 1]
+        inner = [v for v in range(n) if len(adj[v]) > 1]
+        first, second = (leaves, inner) if kind == 'leaves_first' else (inner, leaves)
+        for p1 in itertools.permutations(range(len(first))):
+            for p2 in itertools.permutations(range(len(first), n)):
+                pos = dict(zip(first, p1))
+                pos.update(zip(second, p2))
+                A = np.zeros((n, n))
+                for v, w in edges:
+                    A[pos[v], pos[w]] = A[pos[w], pos[v]] = 1.0
+                t.c['evaluations'] += 1
+                t.c['nontrivial'] += 1
+                t.c[kind + '_numberings'] += 1
+                check_tree(t, A, lambda: {'family': 'und', 'n': n, 'index': si, 'variant': 'binary',
+                                          'graph': 'free tree %d of %d nodes, %s' % (si, n, kind), 'A': A}, with_count=False)
+    return t
+
+
+def unit_cost(unit):
+    if unit[0] in ('leaves_first', 'leaves_last'):
+        import math
+        adj = trees.shapes(unit[1])[unit[2]]
+        L = sum(1 for a in adj if len(a) == 1)
+        return math.factorial(L) * math.factorial(unit[1] - L)
+    return 0
+
+
+def light_forest(t, A, case):
+    n = len(A)
+    ref = ss.bfs_components(A)
+    st, out = guarded(bct.get_components, A.copy())
+    if st != 'ok':
+        t.viol('get_components', 'raises', case, observed=out)
+        return
+    comps, sizes = np.asarray(out[0]), np.asarray(out[1])
+    if comps.shape != (n,) or not np.array_equal(np.equal.outer(comps, comps), np.equal.outer(ref, ref)):
+        t.viol('get_components', 'grouping', case, observed=comps, expected=ref)
+        return
+    if sorted(set(comps.tolist())) != list(range(1, len(set(ref)) + 1)):
+        t.viol('get_components', 'labels_1_to_m', case, observed=comps, expected=len(set(ref)))
+    if sizes.tolist() != [int(np.sum(comps == c)) for c in range(1, int(comps.max()) + 1)]:
+        t.viol('get_components', 'sizes', case, observed=sizes)
+
+
+def work(unit):
+    kind, n, a, b = unit
+    if kind == 'trees':
+        return work_trees(unit)
+    if kind in ('leaves_first', 'leaves_last'):
+        return work_leaf_orders(unit)
+    t = Tally(PROPERTY)
+    for idx in range(a, b):
+        if kind == 'shapes':
+            label, A = trees.shape_family(n)[idx]
+            for name, V in variants(A):
+                case = {'family': 'und', 'n': n, 'index': idx, 'graph': label, 'variant': name, 'A': V}
+                t.c['evaluations'] += 1
+                t.c['nontrivial'] += 1
+                check_und(t, V, name, case)
+        elif kind == 'named':
             label, A = named.family('bin_und')[idx]
             for name, V in variants(A):
                 case = {'family': 'und', 'n': len(A), 'index': idx, 'graph': label, 'variant': name, 'A': V}
